@@ -23,6 +23,12 @@ fn okv<T>(r: std::io::Result<T>) -> Option<T> {
 }
 
 pub const NDF: usize = SEC * 3; // header + FAT sector + directory sector: small enough for field-sensitive arrays
+/// `FaultAt` never produces `ErrorKind::Interrupted`.  std's `write_all` / `read_exact` ask every error
+/// `is_interrupted()`, which decodes the bit-packed repr of io::Error - symbolic control for CBMC: the
+/// "interrupted, try again" arm is then explored for every call that follows the fault (measured: no
+/// verdict within an hour; with this stub 4 s).  Not used by the Chunky harnesses, which do interrupt.
+pub fn stub_not_interrupted(_e: &std::io::Error) -> bool { false }
+
 type FD = FaultAt<PtrFile<NDF>>; // the array lives on the harness's stack (a large array inside nested structs is slow for CBMC)
 
 fn mk_dir_fault(at: usize, data: &mut [u8; NDF]) -> (crate::internal::Directory<FD>, [EM; 4]) {
@@ -63,6 +69,7 @@ macro_rules! c13_dirent_fault {
     ($name:ident, $at:expr) => {
         #[kani::proof]
         #[kani::stub(std::fmt::format, stub_format)]
+        #[kani::stub(std::io::Error::is_interrupted, stub_not_interrupted)]
         #[kani::unwind(140)]
         fn $name() {
             let mut backing = [0u8; NDF];
@@ -158,6 +165,7 @@ macro_rules! c13_mini_first_fault {
         #[kani::proof]
         #[kani::stub(std::fmt::format, stub_format)]
         #[kani::stub(std::io::copy, stub_io_copy)]
+        #[kani::stub(std::io::Error::is_interrupted, stub_not_interrupted)]
         #[kani::unwind(140)]
         fn $name() {
             let mut backing = [0u8; NBF];
